@@ -23,7 +23,8 @@ P = "ppoprf::ppoprf::"
 
 def challenge_parts(ctx, root):
     eng, ret, st, fr = ctx.root(root)
-    hs = [e for e in Q.calls(eng, "ProofDLEQ::hash_to_scalar") if e["frame"] == fr.key]
+    # in the function itself or in a helper it calls (frames below the root)
+    hs = [e for e in Q.calls(eng, "ProofDLEQ::hash_to_scalar") if e["frame"] == fr.key or e["frame"].startswith(fr.key + "/")]
     return eng, ret, fr, hs
 
 
@@ -97,9 +98,10 @@ def run(ctx):
         if len(ch) != 1:
             ctx.add("C13.R2", root + "#challenge-hash", False, "expected one hash_to_scalar(.., \"Challenge\") (found %d)" % len(ch), at)
             continue
-        parts = Q.parts_of(ch[0]["argv"][0])
+        parts = Q.unroll_literal_loops(Q.parts_of(ch[0]["argv"][0]))
         sh = shape(parts)
         pts = [p[1].args[0] for p in parts if p[0] == "part" and p[1].op == "compress"]
+        pts = [x.args[0] if x.op in ("refv", "deref") else x for x in pts]
         sides[root] = (sh, pts, eng)
         good = sh == ["len2:be32", "point"] * 5 and len({p.id for p in pts}) == 5
         ctx.add("C13.R2", root + "#five-length-prefixed-points", good,
